@@ -15,17 +15,24 @@ open ThermoVerif.FlowViews
 phases changes, `link_with` in all flag combinations, `unlink`, `copy_like` incl. `_expand_phases`, property-package
 resets, in-place mixing / scaling / reactions, unit-of-measure calls), every view object held by the `_data_cache` of any stream wraps exactly the row
 objects the stream's molar indexer currently holds, refers to the stream's current thermal-condition object and
-phase container / phases, captured the stream's current chemicals, and is filed under `'mass'` or the current
-thermal-condition object. -/
+phase container / phases, captured the stream's current chemicals, and is filed under `'mass'` or under the
+thermal-condition object it refers to — so the view a stream finds under its *current* thermal-condition object refers to
+that object.  Streams are stream objects: originals, `proxy()`s (same indexer object), `flow_proxy()`s, and the phase
+views `ms[phase]` (so the statement covers the mass / volumetric views *of* phase views). -/
 theorem view_tracks_rows (w : World) (ops : List Op) (h : Inv w.s) (sid : Nat)
     (hs : sid < (w.run ops).s.nstreams) (key : Key) (v : View)
     (hv : (key, v) ∈ (w.run ops).s.caches ((w.run ops).stream sid).cache) :
-    v.rows = (w.run ops).rowsOf sid ∧ v.tc = ((w.run ops).stream sid).tc ∧
+    v.rows = (w.run ops).rowsOf sid ∧
     v.th = ((w.run ops).stream sid).th ∧ v.pc = ((w.run ops).stream sid).viewPc ∧
     v.phases = ((w.run ops).stream sid).viewPhases ∧
-    (key = .mass ∨ key = .vol ((w.run ops).stream sid).tc) := by
-  obtain ⟨g1, g2, g3, g4, g5, g6⟩ := (run_inv ops h).tracks sid hs (key, v) hv
-  exact ⟨g1, g5, g2, g4, g3, g6⟩
+    (key = .mass ∨ key = .vol v.tc) ∧
+    (key = .vol ((w.run ops).stream sid).tc → v.tc = ((w.run ops).stream sid).tc) := by
+  have hg := (run_inv ops h).tracks sid hs (key, v) hv
+  obtain ⟨g1, g2, g3, g4, g5⟩ := hg
+  refine ⟨g1, g2, g4, g3, g5, ?_⟩
+  intro hk
+  subst hk
+  exact (Good.tc_of_vol ⟨g1, g2, g3, g4, g5⟩)
 
 /-- the invariant holds initially, whatever tables the adapter configured -/
 theorem inv_start (thermos : List (List Rat)) (units : List UnitDef) :
@@ -37,7 +44,7 @@ theorem inv_start (thermos : List (List Rat)) (units : List UnitDef) :
 stream currently holds times the molecular weight of the stream's current chemicals. -/
 theorem mass_is_mol_MW {w : World} {sid : Nat} (h : Inv w.s) (hs : sid < w.s.nstreams) :
     (w.readMass sid).2.2 = (w.readMol sid).map (fun r => mulVec r (w.MW (w.stream sid).th)) := by
-  have hg := getView_good h hs (key := .mass) (Or.inl rfl)
+  have hg := (getView_good h hs (key := .mass) (Or.inl rfl)).1
   have hc := getView_content w sid .mass
   have hcfg := (getView_cfg w sid .mass).1
   obtain ⟨g1, g2, -⟩ := hg
@@ -76,19 +83,20 @@ def VLine (Vf : VFun) (w : World) (sid : Nat) (V : Mat) : Prop :=
 
 theorem viewPhase_eq {w : World} {sid : Nat} {v : View} {key : Key} (hg : Good w.s (w.stream sid) (key, v))
     (k : Nat) : w.viewPhase v k = streamPhase w sid k := by
-  obtain ⟨-, -, g3, g4, -, -⟩ := hg
+  obtain ⟨-, -, g3, g4, -⟩ := hg
   simp only [World.viewPhase, streamPhase, Stream.viewPhases, Stream.viewPc] at *
   cases hm : (w.stream sid).multi <;> simp_all
 
 /-- the molar volume a dictionary view uses — cached or fresh — is the function's value at the current key -/
 theorem usedV_eq {Vf : VFun} {w : World} {sid : Nat} {v : View} {key : Key} (hv : VValid Vf w.c)
-    (hg : Good w.s (w.stream sid) (key, v)) (k i : Nat) (vl : Rat)
+    (hg : Good w.s (w.stream sid) (key, v)) (htc : v.tc = (w.stream sid).tc) (k i : Nat) (vl : Rat)
     (hl : vl = Vf (w.stream sid).th (streamPhase w sid k)
             (w.c.tcs (w.stream sid).tc).1 (w.c.tcs (w.stream sid).tc).2 i) :
     w.usedV v k i vl = Vf (w.stream sid).th (streamPhase w sid k)
             (w.c.tcs (w.stream sid).tc).1 (w.c.tcs (w.stream sid).tc).2 i := by
   have hph := viewPhase_eq hg k
-  obtain ⟨-, g2, -, -, g5, -⟩ := hg
+  obtain ⟨-, g2, -, -, -⟩ := hg
+  have g5 := htc
   simp only at g2 g5
   simp only [World.usedV, pickV]
   split
@@ -110,16 +118,19 @@ theorem vol_is_mol_V {Vf : VFun} {w : World} {sid : Nat} {V : Mat} (h : Inv w.s)
     (hv : VValid Vf w.c) (hl : VLine Vf w sid V) :
     (w.readVol sid V).2.2 = (w.readMol sid).zipIdx.map (fun (r, k) => r.zipIdx.map (fun (x, i) =>
       x * Vf (w.stream sid).th (streamPhase w sid k) (w.c.tcs (w.stream sid).tc).1 (w.c.tcs (w.stream sid).tc).2 i)) := by
-  have hg := getView_good h hs (key := .vol (w.stream sid).tc) (Or.inr rfl)
+  have hg0 := getView_good h hs (key := .vol (w.stream sid).tc) (Or.inr rfl)
   have hc := getView_content w sid (.vol (w.stream sid).tc)
   have hst := getView_streams w sid (.vol (w.stream sid).tc)
   -- the same facts about the world after the view was fetched
   generalize hw1 : w.getView sid (.vol (w.stream sid).tc) = p at *
   obtain ⟨w1, v⟩ := p
-  simp only at hg hc hst
-  have hstream : w1.stream sid = w.stream sid := by simp [World.stream, hst.1]
+  simp only at hg0 hc hst
+  have hg : Good w.s (w.stream sid) (.vol (w.stream sid).tc, v) := hg0.1
+  have htc : v.tc = (w.stream sid).tc := hg0.2 trivial
+  have hstream : w1.stream sid = w.stream sid := by simp [World.stream, Struct.ixOf, hst.1, hst.2.2.2]
   have hg1 : Good w1.s (w1.stream sid) (.vol (w.stream sid).tc, v) := by
-    rw [hstream]; obtain ⟨g1, g2⟩ := hg; exact ⟨by rw [g1, hst.2.2], g2⟩
+    rw [hstream]; obtain ⟨g1, g2⟩ := hg; exact ⟨by rw [g1, hst.2.2.1], g2⟩
+  have htc1 : v.tc = (w1.stream sid).tc := by rw [hstream]; exact htc
   have hv1 : VValid Vf w1.c := by rw [hc]; exact hv
   have hrows : v.rows = w.rowsOf sid := hg.1
   simp only [World.readVol, World.volView, hw1, World.readMol]
@@ -134,7 +145,7 @@ theorem vol_is_mol_V {Vf : VFun} {w : World} {sid : Nat} {V : Mat} (h : Inv w.s)
   rintro ⟨x, i⟩ hxi
   have hxi' := List.mem_zipIdx_iff_getElem?.mp hxi
   simp only at hxi'
-  have := usedV_eq hv1 hg1 k i (vAt V k i) (by
+  have := usedV_eq hv1 hg1 htc1 k i (vAt V k i) (by
     have := hl k r hrk' i
     rw [hstream, hc]
     simpa [streamPhase, hstream, hc] using this)
@@ -164,12 +175,13 @@ theorem Fvol_is_sum_of_vol_view {Vf : VFun} {w : World} {sid : Nat} {V : Mat} (h
 /-! ### the molar-volume caches stay valid along every history -/
 
 theorem newEntry_valid {Vf : VFun} {w : World} {sid : Nat} {v : View} {key : Key}
-    (hg : Good w.s (w.stream sid) (key, v)) (k i : Nat) (vl : Rat)
+    (hg : Good w.s (w.stream sid) (key, v)) (htc : v.tc = (w.stream sid).tc) (k i : Nat) (vl : Rat)
     (hl : vl = Vf (w.stream sid).th (streamPhase w sid k)
             (w.c.tcs (w.stream sid).tc).1 (w.c.tcs (w.stream sid).tc).2 i) :
     ∀ e ∈ w.newEntry v k i vl, e.V = Vf e.th e.ph e.T e.P e.idx := by
   have hph := viewPhase_eq hg k
-  obtain ⟨-, g2, -, -, g5, -⟩ := hg
+  obtain ⟨-, g2, -, -, -⟩ := hg
+  have g5 := htc
   simp only at g2 g5
   intro e he
   simp only [World.newEntry, pickNew] at he
@@ -206,29 +218,35 @@ theorem view_facts {Vf : VFun} {w : World} {sid : Nat} {key : Key} (h : Inv w.s)
     Good (w.getView sid key).1.s ((w.getView sid key).1.stream sid) (key, (w.getView sid key).2) ∧
     VValid Vf (w.getView sid key).1.c ∧ (w.getView sid key).1.c = w.c ∧
     (w.getView sid key).1.stream sid = w.stream sid ∧ (w.getView sid key).1.rowsOf sid = w.rowsOf sid ∧
-    (w.getView sid key).2.rows = w.rowsOf sid := by
-  have hg := getView_good h hs hk
+    (w.getView sid key).2.rows = w.rowsOf sid ∧
+    (key = .vol (w.stream sid).tc → (w.getView sid key).2.tc = ((w.getView sid key).1.stream sid).tc) := by
+  have hg0 := getView_good h hs hk
+  have hg : Good w.s (w.stream sid) (key, (w.getView sid key).2) := hg0.1
   have hc := getView_content w sid key
   have hst := getView_streams w sid key
-  have hstream : (w.getView sid key).1.stream sid = w.stream sid := by simp [World.stream, hst.1]
-  refine ⟨?_, by rw [hc]; exact hv, hc, hstream, by simp [World.rowsOf, hstream, hst.2.2], hg.1⟩
-  rw [hstream]; obtain ⟨g1, g2⟩ := hg; exact ⟨by rw [g1, hst.2.2], g2⟩
+  have hstream : (w.getView sid key).1.stream sid = w.stream sid := by
+    simp [World.stream, Struct.ixOf, hst.1, hst.2.2.2]
+  refine ⟨?_, by rw [hc]; exact hv, hc, hstream, by simp [World.rowsOf, hstream, hst.2.2.1], hg.1, ?_⟩
+  · rw [hstream]; obtain ⟨g1, g2⟩ := hg; exact ⟨by rw [g1, hst.2.2.1], g2⟩
+  · intro e; rw [hstream]; exact hg0.2 e
 
 theorem volView_facts {Vf : VFun} {w : World} {sid : Nat} (h : Inv w.s) (hs : sid < w.s.nstreams)
     (hv : VValid Vf w.c) :
     Good (w.volView sid).1.s ((w.volView sid).1.stream sid) (.vol (w.stream sid).tc, (w.volView sid).2) ∧
     VValid Vf (w.volView sid).1.c ∧ (w.volView sid).1.c = w.c ∧
     (w.volView sid).1.stream sid = w.stream sid ∧ (w.volView sid).1.rowsOf sid = w.rowsOf sid ∧
-    (w.volView sid).2.rows = w.rowsOf sid :=
-  view_facts h hs (Or.inr rfl) hv
+    (w.volView sid).2.rows = w.rowsOf sid ∧ (w.volView sid).2.tc = ((w.volView sid).1.stream sid).tc := by
+  have := view_facts h hs (key := .vol (w.stream sid).tc) (Or.inr rfl) hv
+  exact ⟨this.1, this.2.1, this.2.2.1, this.2.2.2.1, this.2.2.2.2.1, this.2.2.2.2.2.1, this.2.2.2.2.2.2 rfl⟩
 
 theorem massView_facts {Vf : VFun} {w : World} {sid : Nat} (h : Inv w.s) (hs : sid < w.s.nstreams)
     (hv : VValid Vf w.c) :
     Good (w.massView sid).1.s ((w.massView sid).1.stream sid) (.mass, (w.massView sid).2) ∧
     VValid Vf (w.massView sid).1.c ∧ (w.massView sid).1.c = w.c ∧
     (w.massView sid).1.stream sid = w.stream sid ∧ (w.massView sid).1.rowsOf sid = w.rowsOf sid ∧
-    (w.massView sid).2.rows = w.rowsOf sid :=
-  view_facts h hs (Or.inl rfl) hv
+    (w.massView sid).2.rows = w.rowsOf sid := by
+  have := view_facts h hs (key := .mass) (Or.inl rfl) hv
+  exact ⟨this.1, this.2.1, this.2.2.1, this.2.2.2.1, this.2.2.2.2.1, this.2.2.2.2.2.1⟩
 
 theorem vline_transfer {Vf : VFun} {w w1 : World} {sid : Nat} {V : Mat} (hl : VLine Vf w sid V)
     (hst : w1.stream sid = w.stream sid) (hr : w1.rowsOf sid = w.rowsOf sid)
@@ -278,9 +296,9 @@ theorem getElem_vvalid {Vf : VFun} {w w' : World} {sid : Nat} {d : Dim} {ph : Op
           split_ifs at he
           · cases he
           · have hl1 := vline_transfer (hl rfl) hf.2.2.2.1 hf.2.2.2.2.1 (by rw [hf.2.2.1]) (by rw [hf.2.2.1])
-            rw [hf.2.2.2.2.2] at hr
+            rw [hf.2.2.2.2.2.1] at hr
             rw [← hf.2.2.2.2.1] at hr
-            exact newEntry_valid hf.1 k i _ (hl1 k r hr i) e he
+            exact newEntry_valid hf.1 hf.2.2.2.2.2.2 k i _ (hl1 k r hr i) e he
       · cases he
 
 theorem putElem_vvalid {Vf : VFun} {w w' : World} {sid : Nat} {d : Dim} {ph : Option Char} {i : Nat} {x : Rat}
@@ -313,9 +331,9 @@ theorem putElem_vvalid {Vf : VFun} {w w' : World} {sid : Nat} {d : Dim} {ph : Op
             split_ifs at he
             · cases he
             · have hl1 := vline_transfer (hl rfl) hf.2.2.2.1 hf.2.2.2.2.1 (by rw [hf.2.2.1]) (by rw [hf.2.2.1])
-              rw [hf.2.2.2.2.2] at hr
+              rw [hf.2.2.2.2.2.1] at hr
               rw [← hf.2.2.2.2.1] at hr
-              exact newEntry_valid hf.1 k i _ (hl1 k r hr i) e he
+              exact newEntry_valid hf.1 hf.2.2.2.2.2.2 k i _ (hl1 k r hr i) e he
           exact vvalid_of_vcs this rfl
       · cases he
 
@@ -353,11 +371,40 @@ theorem putRow_vvalid {Vf : VFun} {w w' : World} {sid : Nat} {d : Dim} {ph : Opt
             split_ifs at he
             · cases he
             · have hl1 := vline_transfer (hl rfl) hf.2.2.2.1 hf.2.2.2.2.1 (by rw [hf.2.2.1]) (by rw [hf.2.2.1])
-              rw [hf.2.2.2.2.2] at hr
+              rw [hf.2.2.2.2.2.1] at hr
               rw [← hf.2.2.2.2.1] at hr
-              exact newEntry_valid hf.1 k i _ (hl1 k r hr i) e he
+              exact newEntry_valid hf.1 hf.2.2.2.2.2.2 k i _ (hl1 k r hr i) e he
           exact vvalid_of_vcs this rfl
       · cases he
+
+theorem reattachStep_vcs (sid : Nat) (b1 b2 : Bool) (w : World) (cv : Char × Nat) :
+    (World.reattachStep sid b1 b2 w cv).c.vcs = w.c.vcs := by
+  simp only [World.reattachStep]
+  split <;> split <;> (try split) <;> rfl
+
+theorem foldReattach_vcs (sid : Nat) (b1 b2 : Bool) (l : List (Char × Nat)) (w : World) :
+    (l.foldl (World.reattachStep sid b1 b2) w).c.vcs = w.c.vcs := by
+  induction l generalizing w with
+  | nil => rfl
+  | cons a t ih => exact (ih _).trans (reattachStep_vcs sid b1 b2 w a)
+
+theorem reattach_vcs (w : World) (sid : Nat) (b1 b2 : Bool) : (w.reattach sid b1 b2).c.vcs = w.c.vcs :=
+  foldReattach_vcs sid b1 b2 _ w
+
+theorem unlink_vcs (w : World) (sid : Nat) : (w.unlink sid).c.vcs = w.c.vcs := by
+  simp only [World.unlink, World.unlinkWith, if_true]
+  rw [reattach_vcs]; rfl
+
+theorem phaseView_vcs {w w' : World} {sid v : Nat} {c : Char} (he : w.phaseView sid c = .ok (w', v)) :
+    w'.c.vcs = w.c.vcs := by
+  simp only [World.phaseView] at he
+  split at he
+  · cases he
+  · split at he
+    · cases he; rfl
+    · split at he
+      · cases he
+      · cases he; rfl
 
 theorem setPhase_vcs {w w' : World} {sid : Nat} {c : Char} {R : Mat} (he : w.setPhase sid c R = .ok w') :
     w'.c.vcs = w.c.vcs := by
@@ -381,7 +428,7 @@ theorem setPhases_vcs {w w' : World} {sid : Nat} {ps : List Char} {R : Mat} (he 
         · cases he
         · split at he
           · cases he
-          · cases he; rfl
+          · cases he; rw [reattach_vcs]; rfl
     · split at he
       · cases he
       · split at he
@@ -445,7 +492,7 @@ theorem resetThermo_vcs {w w' : World} {sid k : Nat} {R : Mat} (he : w.resetTher
     · cases he
     · split at he
       · cases he
-      · cases he; rfl
+      · cases he; rw [reattach_vcs]; rfl
 
 theorem sync_vcs {w w' : World} {sid : Nat} {T P : Rat} {ph : Option Char} {R : Mat}
     (he : w.sync sid T P ph R = .ok w') : w'.c.vcs = w.c.vcs := by
@@ -470,16 +517,22 @@ theorem mixInto_vcs {w w' : World} {sid : Nat} {others : List Char} {P : Rat} {R
       · cases he
       · cases he; exact h1
 
-theorem link_c {w w' : World} {sid oid : Nat} {f p t : Bool} (he : w.link sid oid f p t = .ok w') :
-    w'.c = w.c := by
+theorem link_vcs {w w' : World} {sid oid : Nat} {f p t : Bool} (he : w.link sid oid f p t = .ok w') :
+    w'.c.vcs = w.c.vcs := by
   simp only [World.link, World.linkWith] at he
   split at he
   · cases he
   · split at he
     · cases he
-    · split at he
-      · cases he; rfl
-      · cases he; rfl
+    · cases he
+      have h1 : (if (t && f && (p || (w.stream sid).multi)) = true then w.linkShare sid oid p
+          else World.linkPlain true w sid oid f p t).c.vcs = w.c.vcs := by
+        split
+        · rfl
+        · simp [World.linkPlain]
+      split
+      · rw [reattach_vcs]; exact h1
+      · exact h1
 
 theorem setF_vcs {w w' : World} {sid : Nat} {d : Dim} {x : Rat} {V : Mat} (he : w.setF sid d x V = .ok w') :
     w'.c.vcs = w.c.vcs := by
@@ -509,9 +562,9 @@ theorem readVol_vvalid {Vf : VFun} {w : World} {sid : Nat} {V : Mat} (h : Inv w.
   split_ifs at he
   · cases he
   · have hl1 := vline_transfer hl hf.2.2.2.1 hf.2.2.2.2.1 (by rw [hf.2.2.1]) (by rw [hf.2.2.1])
-    rw [hf.2.2.2.2.2] at hrk'
+    rw [hf.2.2.2.2.2.1] at hrk'
     rw [← hf.2.2.2.2.1] at hrk'
-    exact newEntry_valid hf.1 k i _ (hl1 k r hrk' i) e he
+    exact newEntry_valid hf.1 hf.2.2.2.2.2.2 k i _ (hl1 k r hrk' i) e he
 
 /-- one operation keeps every cached molar volume valid -/
 theorem exec_vvalid {Vf : VFun} {w w' : World} {op : Op} {out : Out} (h : Inv w.s) (hv : VValid Vf w.c)
@@ -520,11 +573,23 @@ theorem exec_vvalid {Vf : VFun} {w w' : World} {op : Op} {out : Out} (h : Inv w.
   split at he
   · cases he
   · rename_i hg
+    split at he
+    · cases he
     have hsid : ∀ s ∈ op.sids, s < w.s.nstreams := by
       intro s hs
       simp only [List.any_eq_true, not_exists, not_and, decide_eq_true_eq, Nat.not_le] at hg
       exact hg s hs
     cases op with
+    | view s c =>
+      simp only [Except.map] at he
+      split at he
+      · cases he
+      · rename_i r hr
+        obtain ⟨w1, v⟩ := r
+        cases he
+        exact vvalid_of_vcs hv (phaseView_vcs hr)
+    | proxy s => cases he; exact vvalid_of_vcs hv rfl
+    | flowProxy s => cases he; exact vvalid_of_vcs hv rfl
     | new1 th ph T P flows =>
       simp only at he
       split at he
@@ -555,8 +620,8 @@ theorem exec_vvalid {Vf : VFun} {w w' : World} {op : Op} {out : Out} (h : Inv w.
       simp only [Except.map] at he
       split at he
       · cases he
-      · rename_i w1 hw1; cases he; rw [link_c hw1]; exact hv
-    | unlink s => cases he; exact vvalid_of_vcs hv rfl
+      · rename_i w1 hw1; cases he; exact vvalid_of_vcs hv (link_vcs hw1)
+    | unlink s => cases he; exact vvalid_of_vcs hv (unlink_vcs _ _)
     | copyLike s o R =>
       simp only [Except.bind, okShape] at he
       split at he
@@ -901,21 +966,23 @@ theorem set_get_total {w w' : World} {sid : Nat} {u u' : String} {x : Rat} {V : 
 
 /-- after `imass` / `ivol` handed out a view, the view is in the cache: the next access returns the same object -/
 theorem getView_lookup (w : World) (sid : Nat) (key : Key) :
-    ((w.getView sid key).1.s.caches ((w.getView sid key).1.s.streams sid).cache).lookup key
+    ((w.getView sid key).1.s.caches ((w.getView sid key).1.stream sid).cache).lookup key
       = some (w.getView sid key).2 := by
   dsimp only [World.getView]
   split
   · rename_i v hv; exact hv
-  · simp [List.lookup, upd]
+  · simp only [World.stream, Struct.ixOf]
+    simp [List.lookup, upd]
 
 theorem getView_of_lookup {w1 : World} {sid : Nat} {key : Key} {v : View}
-    (h : (w1.s.caches (w1.s.streams sid).cache).lookup key = some v) : w1.getView sid key = (w1, v) := by
+    (h : (w1.s.caches (w1.stream sid).cache).lookup key = some v) : w1.getView sid key = (w1, v) := by
   simp only [World.getView, h]
 
 theorem getView_again {w w1 : World} {sid : Nat} {key : Key} (hs : w1.s = (w.getView sid key).1.s) :
     w1.getView sid key = (w1, (w.getView sid key).2) := by
   apply getView_of_lookup
-  rw [hs]
+  have : w1.stream sid = (w.getView sid key).1.stream sid := by simp [World.stream, hs]
+  rw [this, hs]
   exact getView_lookup w sid key
 
 theorem pickV_stable (l : List VEntry) (th : Nat) (T P : Rat) (ph : Char) (k i : Nat) (vl vl' : Rat) :
@@ -1025,12 +1092,12 @@ theorem put_get_elem {Vf : VFun} {w w1 : World} {sid : Nat} {d : Dim} {ph : Opti
         · cases hput
         · rename_i r hr
           cases hput
-          have hr' : (w.rowsOf sid)[k]? = some r := by rw [← hf.2.2.2.2.2]; exact hr
+          have hr' : (w.rowsOf sid)[k]? = some r := by rw [← hf.2.2.2.2.2.1]; exact hr
           have hlen := hok.len k r hk hr'
           have hl0 := hl rfl
           have hl1 := vline_transfer hl0 hf.2.2.2.1 hf.2.2.2.2.1 (by rw [hf.2.2.1]) (by rw [hf.2.2.1])
           have hr1 : ((w.volView sid).1.rowsOf sid)[k]? = some r := by rw [hf.2.2.2.2.1]; exact hr'
-          have hU := usedV_eq hf.2.1 hf.1 k i (vAt V k i) (hl1 k r hr1 i)
+          have hU := usedV_eq hf.2.1 hf.1 hf.2.2.2.2.2.2 k i (vAt V k i) (hl1 k r hr1 i)
           have hUnz : (w.volView sid).1.usedV (w.volView sid).2 k i (vAt V k i) ≠ 0 := by
             rw [hU, hf.2.2.2.1, hf.2.2.1]
             have := hok.vol rfl k hk
@@ -1142,9 +1209,11 @@ theorem put_row_mass_spec {w w' : World} {sid : Nat} {ph : Option Char} {xs : Li
     ∃ k r, w.rowPos sid ph = .ok k ∧ (w.rowsOf sid)[k]? = some r ∧
       w'.c.rows r = divVec xs (w.MW (w.stream sid).th) ∧ xs.length = (w.MW (w.stream sid).th).length ∧
       w'.rowsOf sid = w.rowsOf sid ∧ w'.stream sid = w.stream sid ∧ w'.thermos = w.thermos := by
-  have hg := getView_good h hs (key := .mass) (Or.inl rfl)
+  have hg := (getView_good h hs (key := .mass) (Or.inl rfl)).1
   have hcfg := (getView_cfg w sid .mass).1
   have hst := getView_streams w sid .mass
+  have hstream : (w.massView sid).1.stream sid = w.stream sid := by
+    simp only [World.massView, World.stream, Struct.ixOf, hst.1, hst.2.2.2]
   simp only [World.putRow] at he
   split at he
   · cases he
@@ -1162,11 +1231,10 @@ theorem put_row_mass_spec {w w' : World} {sid : Nat} {ph : Option Char} {xs : Li
         · have hth : (w.massView sid).2.th = (w.stream sid).th := hg.2.1
           simp only [World.setRow, upd_same, World.MW, hth]
           rw [show (w.massView sid).1.thermos = w.thermos from hcfg]
-        · simp only [World.rowsOf, World.stream, World.setRow]
-          rw [show (w.massView sid).1.s.streams = w.s.streams from hst.1,
-              show (w.massView sid).1.s.datas = w.s.datas from hst.2.2]
-        · simp only [World.stream, World.setRow]
-          rw [show (w.massView sid).1.s.streams = w.s.streams from hst.1]
+        · show ((w.massView sid).1.rowsOf sid) = w.rowsOf sid
+          simp only [World.rowsOf, hstream]
+          rw [show (w.massView sid).1.s.datas = w.s.datas from hst.2.2.1]
+        · exact hstream
 
 /-- **put_row_vol_spec.**  `s.vol = values`, `s.ivol.data.copy_like(other.vol)`, `s.ivol[phase] = values`: the addressed
 molar row becomes `values_i / (1000·V_i)` with the molar volumes at the **receiver's** chemicals, phase, T and P —
@@ -1188,14 +1256,14 @@ theorem put_row_vol_spec {Vf : VFun} {w w' : World} {sid : Nat} {ph : Option Cha
       · cases he
       · rename_i r hr
         cases he
-        have hr' : (w.rowsOf sid)[k]? = some r := by rw [← hf.2.2.2.2.2]; exact hr
+        have hr' : (w.rowsOf sid)[k]? = some r := by rw [← hf.2.2.2.2.2.1]; exact hr
         refine ⟨k, r, hk, hr', ?_⟩
         simp only [World.setRow, upd_same]
         apply List.map_congr_left
         rintro ⟨x, i⟩ -
         have hl1 := vline_transfer hl hf.2.2.2.1 hf.2.2.2.2.1 (by rw [hf.2.2.1]) (by rw [hf.2.2.1])
         have hr1 : ((w.volView sid).1.rowsOf sid)[k]? = some r := by rw [hf.2.2.2.2.1]; exact hr'
-        have hU := usedV_eq hf.2.1 hf.1 k i (vAt V k i) (hl1 k r hr1 i)
+        have hU := usedV_eq hf.2.1 hf.1 hf.2.2.2.2.2.2 k i (vAt V k i) (hl1 k r hr1 i)
         simp only
         rw [hU, hf.2.2.2.1, hf.2.2.1]
         simp [streamPhase, hf.2.2.2.1, hf.2.2.1]
@@ -1215,6 +1283,93 @@ theorem put_row_mass_reads_back {w w' : World} {sid : Nat} {ph : Option Char} {x
   have : w'.MW (w.stream sid).th = w.MW (w.stream sid).th := by simp [World.MW, hth]
   rw [hrow, this, divVec_mulVec xs _ hlen hmw]
 
+/-! ## proxies and phase views -/
+
+/-- **proxy_spec.**  `proxy()` creates a stream object that holds the very same indexer object (hence the same data,
+`_data_cache`, phase container) and the same thermal-condition object; `flow_proxy()` one that holds the same data object
+through an indexer of its own with a brand-new `_data_cache`. -/
+theorem proxy_spec (w : World) (sid : Nat) :
+    ((w.proxy sid).1.s.streams (w.proxy sid).2).ix = (w.s.streams sid).ix ∧
+    ((w.proxy sid).1.stream (w.proxy sid).2).tc = (w.stream sid).tc ∧
+    (w.proxy sid).1.rowsOf (w.proxy sid).2 = w.rowsOf sid ∧
+    ((w.proxy sid).1.stream (w.proxy sid).2).cache = (w.stream sid).cache := by
+  simp [World.proxy, World.stream, World.rowsOf, Struct.ixOf, upd]
+
+theorem flowProxy_spec (w : World) (sid : Nat) :
+    (w.flowProxy sid).1.rowsOf (w.flowProxy sid).2 = w.rowsOf sid ∧
+    ((w.flowProxy sid).1.stream (w.flowProxy sid).2).cache = w.s.ncaches ∧
+    (w.flowProxy sid).1.s.caches w.s.ncaches = [] := by
+  simp [World.flowProxy, World.stream, World.rowsOf, Struct.ixOf, Struct.bindNew, upd]
+
+/-- **holders_of_one_indexer_agree.**  In every reachable state, two stream objects that hold the same indexer object (a
+stream and its `proxy()`, after any operations on either) read the same molar data, and their mass views read the same
+values: both are `mol × MW` of the one indexer. -/
+theorem holders_of_one_indexer_agree {w : World} {p q : Nat} (h : Inv w.s) (hp : p < w.s.nstreams)
+    (hq : q < w.s.nstreams) (hix : (w.s.streams p).ix = (w.s.streams q).ix) :
+    w.readMol p = w.readMol q ∧ (w.readMass p).2.2 = (w.readMass q).2.2 ∧
+    (w.stream p).cache = (w.stream q).cache := by
+  have hs : ∀ f : Stream → Nat, f (w.s.ixOf p) = f (w.s.ixOf q) := by
+    intro f; simp [Struct.ixOf, hix]
+  have hmol : w.readMol p = w.readMol q := by
+    simp only [World.readMol, World.rowsOf, World.stream]
+    rw [show (w.s.ixOf p).data = (w.s.ixOf q).data from hs (·.data)]
+  refine ⟨hmol, ?_, hs (·.cache)⟩
+  rw [mass_is_mol_MW h hp, mass_is_mol_MW h hq, hmol]
+  simp only [World.stream]
+  rw [show (w.s.ixOf p).th = (w.s.ixOf q).th from hs (·.th)]
+
+/-- a phase view `v` of `p` for phase label `c` is *attached*: it wraps the row object `p` files `c` under, and refers to
+`p`'s thermal-condition object and chemicals -/
+def Attached (w : World) (p : Nat) (c : Char) (v : Nat) : Prop :=
+  ∃ r, w.rowFor p c = some r ∧ w.rowsOf v = [r] ∧ (w.stream v).tc = (w.stream p).tc ∧
+    (w.stream v).th = (w.stream p).th ∧ (w.stream v).multi = false
+
+/-- **phaseView_attached.**  The first `ms[c]` hands out an attached view. -/
+theorem phaseView_attached {w w' : World} {sid v : Nat} {c : Char} (h : Inv w.s) (hs : sid < w.s.nstreams)
+    (hnew : (w.views sid).lookup c = none) (he : w.phaseView sid c = .ok (w', v)) : Attached w' sid c v := by
+  simp only [World.phaseView, hnew] at he
+  split at he
+  · cases he
+  · split at he
+    · cases he
+    · rename_i r hr
+      cases he
+      have hne : ¬ w.s.nstreams = sid := fun e => Nat.lt_irrefl _ (e ▸ hs)
+      have hne' : ¬ sid = w.s.nstreams := fun e => hne e.symm
+      have hix : ¬ (w.s.streams sid).ix = w.s.nixs := Nat.ne_of_lt (h.bix sid hs)
+      have hd : ¬ (w.s.ixs (w.s.streams sid).ix).data = w.s.ndatas := Nat.ne_of_lt (h.bdata sid hs)
+      refine ⟨r, ?_, ?_, ?_, ?_, ?_⟩
+      · simp only [World.rowFor, World.rowsOf, World.stream, Struct.ixOf] at hr
+        simp [World.rowFor, World.rowsOf, World.stream, World.setViews, World.attach, Struct.ixOf,
+          Struct.bindNew, Struct.allocData, upd, hne, hne', hix, hd]
+        exact hr
+      · simp [World.rowsOf, World.stream, World.setViews, World.attach, Struct.ixOf, Struct.bindNew,
+          Struct.allocData, upd, hne, hne', hix, hd]
+      · simp [World.stream, World.setViews, World.attach, Struct.ixOf, Struct.bindNew, Struct.allocData, upd, hne, hne', hix, hd]
+      · simp [World.stream, World.setViews, World.attach, Struct.ixOf, Struct.bindNew, Struct.allocData, upd, hne, hne', hix, hd]
+      · simp [World.stream, World.setViews, World.attach, Struct.ixOf, Struct.bindNew, Struct.allocData, upd, hne, hne', hix, hd]
+
+/-- **write_through_view_reaches_parent.**  A whole-row assignment through the mass accessor of an attached phase view
+(`ms[c].mass = values`) sets the row of that phase *in the parent* to `values_i / MW_i`; conversely the view reads the
+parent's row (they hold the same row object). -/
+theorem write_through_view_reaches_parent {w w' : World} {p v : Nat} {c : Char} {xs : List Rat} {V : Mat}
+    {vid : Option Nat} (h : Inv w.s) (hv : v < w.s.nstreams) (ha : Attached w p c v)
+    (he : w.putRow v .mass none xs V = .ok (w', vid)) :
+    ∃ r, w.rowFor p c = some r ∧ w'.c.rows r = divVec xs (w.MW (w.stream p).th) ∧
+      w.readMol v = [w.c.rows r] ∧ w'.readMol v = [w'.c.rows r] := by
+  obtain ⟨r, hr, hrows, -, hth, hm⟩ := ha
+  obtain ⟨k, r', hk, hr', hrow, -, hrows', -, -⟩ := put_row_mass_spec h hv he
+  have hk0 : k = 0 := by
+    simp only [World.rowPos, hm] at hk
+    cases hk; rfl
+  subst hk0
+  rw [hrows] at hr'
+  simp only [List.getElem?_cons_zero, Option.some.injEq] at hr'
+  subst hr'
+  refine ⟨r, hr, by rw [hrow, hth], ?_, ?_⟩
+  · simp [World.readMol, hrows]
+  · simp [World.readMol, hrows', hrows]
+
 /-! ## the code as found violates the property (reproduced in the model by the `…Old` variants) -/
 
 /-- two linked single-phase streams -/
@@ -1232,9 +1387,9 @@ theorem unlink_clear_in_place_counterexample :
   constructor
   · intro h
     have hbad : ∃ kv ∈ (((twoStreams.linkShare 1 0 true).unlinkOld 1).massView 1).1.s.caches
-          ((((twoStreams.linkShare 1 0 true).unlinkOld 1).massView 1).1.s.streams 0).cache,
+          ((((twoStreams.linkShare 1 0 true).unlinkOld 1).massView 1).1.stream 0).cache,
         kv.2.rows ≠ (((twoStreams.linkShare 1 0 true).unlinkOld 1).massView 1).1.s.datas
-          ((((twoStreams.linkShare 1 0 true).unlinkOld 1).massView 1).1.s.streams 0).data := by decide
+          ((((twoStreams.linkShare 1 0 true).unlinkOld 1).massView 1).1.stream 0).data := by decide
     obtain ⟨kv, hmem, hne⟩ := hbad
     exact hne (h.tracks 0 (by decide) kv hmem).1
   · have h2 : Inv twoStreams.s := inv_newStream (inv_newStream inv_init _ _ _ _ _ _ _) _ _ _ _ _ _ _
@@ -1252,11 +1407,11 @@ theorem relink_clear_in_place_counterexample :
   have hbad : ∃ kv ∈ ((((twoStreams.newStream false [] 'l' 0 300 101325 [[4]]).1.linkShare 1 0 true).linkPlain false 1 2
         true false false).massView 1).1.s.caches
         (((((twoStreams.newStream false [] 'l' 0 300 101325 [[4]]).1.linkShare 1 0 true).linkPlain false 1 2 true false
-          false).massView 1).1.s.streams 0).cache,
+          false).massView 1).1.stream 0).cache,
       kv.2.rows ≠ ((((twoStreams.newStream false [] 'l' 0 300 101325 [[4]]).1.linkShare 1 0 true).linkPlain false 1 2
         true false false).massView 1).1.s.datas
         (((((twoStreams.newStream false [] 'l' 0 300 101325 [[4]]).1.linkShare 1 0 true).linkPlain false 1 2 true false
-          false).massView 1).1.s.streams 0).data := by decide
+          false).massView 1).1.stream 0).data := by decide
   obtain ⟨kv, hmem, hne⟩ := hbad
   exact hne (h.tracks 0 (by decide) kv hmem).1
 
@@ -1274,8 +1429,8 @@ view still wraps the two old rows while the stream holds three. -/
 theorem expand_keeps_cache_counterexample : ¬ Inv (expanded false).s ∧ Inv (expanded true).s := by
   constructor
   · intro h
-    have hbad : ∃ kv ∈ (expanded false).s.caches ((expanded false).s.streams 0).cache,
-        kv.2.rows ≠ (expanded false).s.datas ((expanded false).s.streams 0).data := by decide
+    have hbad : ∃ kv ∈ (expanded false).s.caches ((expanded false).stream 0).cache,
+        kv.2.rows ≠ (expanded false).s.datas ((expanded false).stream 0).data := by decide
     obtain ⟨kv, hmem, hne⟩ := hbad
     exact hne (h.tracks 0 (by decide) kv hmem).1
   · have h1 : Inv twoPhase.s := inv_getView (inv_newStream inv_init _ _ _ _ _ _ _) (by decide) (Or.inl rfl)
